@@ -221,6 +221,10 @@ def make_soup(markup, builder):
             return e["BeautifulSoup"](markup, "html.parser")
         if builder == "custom":
             return e["BeautifulSoup"](markup, "html.parser", preserve_whitespace_tags={"p", "b", "td"})
+        if builder == "custom-list":
+            return e["BeautifulSoup"](markup, "html.parser", preserve_whitespace_tags=["p", "b", "td"])
+        if builder == "custom-frozen":
+            return e["BeautifulSoup"](markup, "html.parser", preserve_whitespace_tags=frozenset({"pre", "li"}))
         if builder == "nopre":
             return e["BeautifulSoup"](markup, "html.parser", preserve_whitespace_tags=set())
         if builder == "xmlish":
@@ -242,7 +246,7 @@ EDIT_NAMES = ["tag", "tag", "str", "str", "move", "move", "extract", "unwrap", "
 NEW_NAMES = BLOCK[:4] + INLINE[:4] + PRE + VOID[:2] + ["script"]
 STR_CLASSES = ["NavigableString", "NavigableString", "NavigableString", "Comment", "CData", "Doctype", "ProcessingInstruction",
                "Declaration", "XMLProcessingInstruction", "Script", "TemplateString"]
-API_TEXTS = TEXTS[:24] + ["a < b", "x & y", "<raw>", "  lead", "trail  ", "\n", ""]
+API_TEXTS = TEXTS[:24] + ["a < b", "x & y", "<raw>", "  lead", "trail  ", "\n", "", "\ud800x", " \udfff ", "\u2028\u2029", "\x1c\x1d"]
 
 
 def gen_edits(r, n):
@@ -383,7 +387,15 @@ def build(recipe):
 # --------------------------------------------------------------------------------------
 INDENT_ARGS = [["omit"], ["int", 0], ["int", 1], ["int", 3], ["str", "\t"], ["str", ""], ["none"], ["int", -1], ["str", " \t"],
                ["bool", True], ["float", 2.5], ["str", "--"], ["int", 2], ["str", "\u3000"], ["bool", False], ["int", -7],
-               ["str", ". "], ["list"]]
+               ["str", ". "], ["list"], ["strsub", "\t\t"], ["intsub", 2]]
+
+
+class StrSub(str):
+    pass
+
+
+class IntSub(int):
+    pass
 
 
 def indent_value(a):
@@ -392,6 +404,10 @@ def indent_value(a):
         return None
     if k in ("int", "str", "bool", "float"):
         return a[1]
+    if k == "strsub":
+        return StrSub(a[1])
+    if k == "intsub":
+        return IntSub(a[1])
     if k == "list":
         return [1]
     raise KeyError(k)
@@ -405,9 +421,9 @@ def prop_unit(a):
         return " "
     if k == "none":
         return ""
-    if k in ("int", "bool"):
+    if k in ("int", "bool", "intsub"):
         return " " * max(0, int(a[1]))
-    if k == "str":
+    if k in ("str", "strsub"):
         return a[1]
     return " "
 
@@ -418,9 +434,9 @@ def indent_tok(a):
         return None
     if k == "none":
         return "N"
-    if k in ("int", "bool"):
+    if k in ("int", "bool", "intsub"):
         return f"i{int(a[1])}"
-    if k == "str":
+    if k in ("str", "strsub"):
         return "s" + tok(a[1])
     return "o"
 
@@ -649,7 +665,7 @@ def report(ctx: Ctx, what, **kw):
 
 
 CALLS_FULL = [["decode", None], ["prettify"], ["decode", 0], ["decode", 1], ["decode", 2], ["decode_contents", 0],
-              ["decode_contents", 1], ["decode_contents", None], ["prettify_enc"], ["decode", -1], ["decode", True], ["decode", 5], ["decode", False]]
+              ["decode_contents", 1], ["decode_contents", None], ["decode", -1], ["decode", True], ["decode", 5], ["decode", False]]
 
 
 def do_call(recv, call, farg):
@@ -900,7 +916,7 @@ def check_document_(ctx: Ctx, recipe, stream, r, specs_pool, unit_of_spec, reque
 # the raw layer: pieces computed by the model; encodings, bytes flavour, XML declaration, soup / void receivers
 # --------------------------------------------------------------------------------------
 ENCODINGS = ["latin-1", "ascii", "koi8-r", "utf-16", "cp1252", "UTF-8", "utf8"]
-PY_SPECIFIC = ["idna", "unicode_escape", "punycode", "undefined"]
+PY_SPECIFIC = ["idna", "unicode_escape", "punycode", "undefined", "", "string-escape"]
 
 
 def enc_tok(e):
@@ -980,6 +996,9 @@ def do_raw_call(recv, call, k, enc, farg):
         if call == "p":
             return recv.prettify(formatter=farg) if enc == "D" else recv.prettify(enc, farg)
         if call == "d":
+            if isinstance(k, bool) and isinstance(recv, E()["BeautifulSoup"]) and enc != "D" and (enc is None or len(enc) % 2 == 0):
+                # the other deprecated spelling of the same thing
+                return recv.decode(eventual_encoding=enc, formatter=farg, pretty_print=k)
             return recv.decode(k, formatter=farg) if enc == "D" else recv.decode(k, enc, farg)
         if call == "c":
             return recv.decode_contents(k, formatter=farg) if enc == "D" else recv.decode_contents(k, enc, farg)
@@ -1100,9 +1119,9 @@ def raw_section(ctx, soup, recipe, stream, r, spec, farg, fmt, unit, grecvs, idm
 
 def gen_recipe(r, stream):
     if stream == "html":
-        return {"kind": "html", "markup": gen_html(r), "builder": r.choice(["default"] * 6 + ["custom", "nopre"]), "edits": []}
+        return {"kind": "html", "markup": gen_html(r), "builder": r.choice(["default"] * 6 + ["custom", "nopre", "custom-list", "custom-frozen"]), "edits": []}
     if stream == "edited":
-        b = r.choice(["default"] * 5 + ["custom", "nopre", "xmlish"])
+        b = r.choice(["default"] * 5 + ["custom", "nopre", "xmlish", "custom-list"])
         m = gen_xml(r) if b == "xmlish" else gen_html(r)
         return {"kind": "edited", "markup": m, "builder": b, "edits": gen_edits(r, r.randint(1, 8))}
     if stream == "xml":
@@ -1114,7 +1133,9 @@ def gen_recipe(r, stream):
     raise KeyError(stream)
 
 
+DEEP = "".join(f"<div class=d{i}>" for i in range(22)) + " deep <pre> p <b> q </b>\n</pre><br> tail " + "</div>" * 22
 FIXED = [
+    {"kind": "html", "markup": DEEP, "builder": "default", "edits": []},
     {"kind": "html", "markup": '<html><head><meta charset="iso-8859-1"><meta http-equiv="Content-Type" content="text/html; charset=koi8-r"></head>'
                                "<body><br><pre> a </pre></body></html>", "builder": "default", "edits": []},
     {"kind": "xml", "markup": '<root><meta charset="big5"/><a/> t </root>', "builder": "xmlish", "edits": []},
